@@ -70,6 +70,124 @@ def fold_exact(t, memo=None):
     return r
 
 
+def cases_with_assignment(ts, limit=6):
+    """[(assignment {condition term: bool}, branch-free terms)] over all selections of the terms; None when more than `limit` conditions"""
+    from post import _collect_conds
+    conds = []
+    seen = set()
+    for t in ts:
+        _collect_conds(t, conds, seen)
+    for c in [c for c in conds if c.op == 'fne' and c.args[0] is c.args[1]]:
+        ts = [tm.subst(t, {c: tm.FALSE}) for t in ts]
+    conds = []
+    seen = set()
+    for t in ts:
+        _collect_conds(t, conds, seen)
+    if len(conds) > limit:
+        return None
+    out = []
+    for case in range(1 << len(conds)):
+        cur = ts
+        asg = {}
+        for j, c in enumerate(conds):
+            v = bool((case >> j) & 1)
+            asg[c] = v
+            cur = [tm.subst(t, {c: tm.TRUE if v else tm.FALSE}) for t in cur]
+        out.append((asg, cur))
+    return out
+
+
+def check_rotation_arc(ctx, cfg, F, H, done):
+    """from_rotation_arc(a, b) * a == b, from_rotation_arc_colinear(a, b) * a == +-b (sign of a.b), from_rotation_arc_2d likewise in the plane:
+    exact identities under |a| = |b| = 1 on the regular branch (neither a.b > 1 - eps nor a.b < -(1 - eps)); the two singular branches return
+    constant / half-turn quaternions and are only required to be unit (C20 R-POST)."""
+    from post import unit_relation
+    for name, it in api_roots(F):
+        st = (it.get('self_ty') or '').lstrip('&')
+        tname = st.rsplit('::', 1)[-1]
+        mname = it.get('name') or ''
+        if it.get('trait') or tname not in ('Quat', 'DQuat') or mname not in ('from_rotation_arc', 'from_rotation_arc_colinear', 'from_rotation_arc_2d'):
+            continue
+        body = F.body(it['key'])
+        argtys = body['locals'][1:1 + body['argc']]
+        rty = body['locals'][0]
+        r = H.run(it['key'])
+        if r.abort or r.ret is None:
+            ctx.unverifiable('R-ARCROT', cfg, name, r.abort or 'diverges')
+            continue
+        views = [ArgView(F, r, i, argtys[i]) for i in range(2)]
+        lanes = value_lanes(F, r.ret, rty)
+        if lanes is None or any(v.lanes is None for v in views):
+            ctx.unverifiable('R-ARCROT', cfg, name, 'operands / result lanes not found')
+            continue
+        cases = cases_with_assignment(lanes)
+        if cases is None:
+            ctx.undecided('R-ARCROT', cfg, name, 'too many selections')
+            continue
+        n_main = 0
+        bad = None
+        for asg, ls in cases:
+            alg = nf.Algebra()
+            alg.budget = 400000
+            S = Spec(alg)
+            unit_relation(alg, views[0].lanes)
+            unit_relation(alg, views[1].lanes)
+            a = [alg.nf(x) for x in views[0].lanes]
+            b = [alg.nf(x) for x in views[1].lanes]
+            if len(a) == 2:
+                a, b = a + [S.c(0)], b + [S.c(0)]
+            dot = S.dot(a, b)
+            # classify the conditions of this case: comparisons of a.b (or -(a.b)) with constants
+            singular = False
+            flip = False
+            unknown = None
+            for c, v in asg.items():
+                if c.op not in ('flt', 'fle'):
+                    unknown = c
+                    break
+                x, y = c.args
+                kx, ky = (tm.f_of(x) if tm.is_const(x) else None), (tm.f_of(y) if tm.is_const(y) else None)
+                other = y if kx is not None else x
+                k = kx if kx is not None else ky
+                if k is None:
+                    unknown = c
+                    break
+                d = alg.nf(other)
+                if S.eq(d, dot):
+                    sgn = 1
+                elif S.eq(d, S.neg(dot)):
+                    sgn = -1
+                else:
+                    unknown = c
+                    break
+                if k == 0.0:
+                    # a.b < 0 (or its mirror): the colinear form's choice of target
+                    lt0 = (ky is not None) if sgn == 1 else (kx is not None)     # condition reads "a.b < 0"
+                    if (v and lt0) or (not v and not lt0):
+                        flip = not flip if mname == 'from_rotation_arc_colinear' else flip
+                elif v:
+                    singular = True      # a.b beyond +-(1 - eps): a singular branch is taken
+            if unknown is not None:
+                bad = 'branch condition %s is not a comparison of a.b with a constant' % tm.show(unknown, 0, 4)[:160]
+                break
+            if singular:
+                continue
+            try:
+                q = [alg.nf(l) for l in ls]
+                rot = S.quat_rotate(q, a)
+                target = [S.neg(x) for x in b] if flip else b
+                if not all(alg.reduce(S.sub(x, y)[0]).is_zero() for x, y in zip(rot, target)):
+                    bad = 'on the regular branch q * from is not %sto (under |from| = |to| = 1)' % ('-' if flip else '')
+                    break
+                n_main += 1
+            except ValueError as e:
+                bad = 'not analysable: %s' % e
+                break
+        if bad is None and n_main == 0:
+            bad = 'no regular branch found'
+        done('R-ARCROT', name, bad, it)
+
+
 def _abstract_harness(F):
     """harness in which the polynomial arccos is the symbol acos_approx(.) and the SSE2 sine polynomial is sin(.) lane-wise (both certified by R-APPROX)"""
     from harness import Harness
@@ -367,6 +485,8 @@ def run(ctx):
                         if not okG:
                             bad = 'end point is not negated exactly when dot < 0: guard %s' % tm.show(G, 0, 3)[:160]
                 done('R-ARC', name, bad, it)
+        # R-ARCROT: from_rotation_arc(a, b) rotates a onto b
+        check_rotation_arc(ctx, cfg, F, H, done)
         # R-SLERP: the interpolation formula itself, with the arccos and sine evaluations as opaque function symbols
         check_slerp(ctx, cfg, F, done)
         # accuracy of the approximations slerp / rotate_towards / angle_between are built on (interval certificates, rules/approx.py):
